@@ -53,6 +53,57 @@
 
 use crate::prelude::*;
 
+/// Verification hooks (compiled only with `--cfg tsrun_verif`): stale-handle dereference log,
+/// allocation ordinals with armed collection points, and a heap dump. No behaviour change
+/// unless the harness arms a collection point.
+#[cfg(tsrun_verif)]
+pub mod verif {
+    use std::cell::{Cell, RefCell};
+    use std::vec::Vec;
+    std::thread_local! {
+        static STALE_COUNT: Cell<u64> = const { Cell::new(0) };
+        static STALE_LOG: RefCell<Vec<(&'static str, usize, u32, u32)>> = const { RefCell::new(Vec::new()) };
+        static ALLOC_ORDINAL: Cell<u64> = const { Cell::new(0) };
+        static COLLECT_AT: RefCell<Vec<u64>> = const { RefCell::new(Vec::new()) };
+    }
+    /// Record a dereference through a handle whose slot was swept or reused.
+    pub fn note_stale(kind: &'static str, index: usize, handle_gen: u32, slot_gen: u32) {
+        STALE_COUNT.with(|c| c.set(c.get() + 1));
+        STALE_LOG.with(|l| {
+            let mut l = l.borrow_mut();
+            if l.len() < 16 {
+                l.push((kind, index, handle_gen, slot_gen));
+            }
+        });
+    }
+    /// Number of stale dereferences since the last reset, plus the first few events.
+    pub fn stale() -> (u64, Vec<(&'static str, usize, u32, u32)>) {
+        (STALE_COUNT.with(|c| c.get()), STALE_LOG.with(|l| l.borrow().clone()))
+    }
+    /// Reset all counters and disarm collection points.
+    pub fn reset() {
+        STALE_COUNT.with(|c| c.set(0));
+        STALE_LOG.with(|l| l.borrow_mut().clear());
+        ALLOC_ORDINAL.with(|c| c.set(0));
+        COLLECT_AT.with(|l| l.borrow_mut().clear());
+    }
+    /// Arm "collect right before allocation #i" (1-based ordinals counted since reset).
+    pub fn arm_collect_at(ordinals: Vec<u64>) {
+        COLLECT_AT.with(|l| *l.borrow_mut() = ordinals);
+    }
+    /// Allocations seen on this thread since the last reset.
+    pub fn alloc_ordinal() -> u64 {
+        ALLOC_ORDINAL.with(|c| c.get())
+    }
+    pub(super) fn next_alloc_wants_collect() -> bool {
+        let n = ALLOC_ORDINAL.with(|c| {
+            c.set(c.get() + 1);
+            c.get()
+        });
+        COLLECT_AT.with(|l| l.borrow().contains(&n))
+    }
+}
+
 // ============================================================================
 // ChunkBitmask - 256-bit bitmask for marking objects within a chunk
 // ============================================================================
@@ -202,12 +253,38 @@ impl<T: Default + Reset + Traceable> Eq for Gc<T> {}
 impl<T: Default + Reset + Traceable> Gc<T> {
     /// Borrow the inner data immutably
     pub fn borrow(&self) -> Ref<'_, T> {
+        #[cfg(tsrun_verif)]
+        self.verif_check("borrow");
         unsafe { self.ptr.as_ref().data.borrow() }
     }
 
     /// Borrow the inner data mutably
     pub fn borrow_mut(&self) -> RefMut<'_, T> {
+        #[cfg(tsrun_verif)]
+        self.verif_check("borrow_mut");
         unsafe { self.ptr.as_ref().data.borrow_mut() }
+    }
+
+    /// Verification hook: log a dereference through a stale handle (slot swept or reused).
+    #[cfg(tsrun_verif)]
+    fn verif_check(&self, kind: &'static str) {
+        if self.space.upgrade().is_none() {
+            verif::note_stale("dead-space", 0, self.generation, 0);
+            return;
+        }
+        let gc_box = unsafe { self.ptr.as_ref() };
+        if gc_box.pooled.get() || gc_box.generation.get() != self.generation {
+            verif::note_stale(kind, gc_box.index, self.generation, gc_box.generation.get());
+        }
+    }
+
+    /// Verification hook: (slot index, handle generation).
+    #[cfg(tsrun_verif)]
+    pub fn verif_slot(&self) -> (usize, u32) {
+        if self.space.upgrade().is_none() {
+            return (usize::MAX, self.generation);
+        }
+        (unsafe { self.ptr.as_ref() }.index, self.generation)
     }
 
     /// Get the object's unique ID (pointer address)
@@ -480,6 +557,10 @@ impl<T: Default + Reset + Traceable> Space<T> {
         // it's added to a guard's roots
         self.net_allocs += 1;
         if self.gc_threshold > 0 && self.net_allocs >= self.gc_threshold {
+            self.collect();
+        }
+        #[cfg(tsrun_verif)]
+        if verif::next_alloc_wants_collect() {
             self.collect();
         }
 
@@ -787,6 +868,36 @@ impl<T: Default + Reset + Traceable> Heap<T> {
     /// Set the GC threshold (0 = disable automatic collection)
     pub fn set_gc_threshold(&self, threshold: usize) {
         self.inner.borrow_mut().set_gc_threshold(threshold);
+    }
+
+    /// Verification hook: per-slot (index, pooled, ref_count, generation), the free list
+    /// (slot indices), every live guard's root list (slot indices), net_allocs, threshold.
+    #[cfg(tsrun_verif)]
+    #[allow(clippy::type_complexity)]
+    pub fn verif_dump(
+        &self,
+    ) -> (
+        Vec<(usize, bool, usize, u32)>,
+        Vec<usize>,
+        Vec<Vec<usize>>,
+        isize,
+        isize,
+    ) {
+        let sp = self.inner.borrow();
+        let mut slots = Vec::new();
+        for chunk in &sp.chunks {
+            for b in chunk {
+                slots.push((b.index, b.pooled.get(), b.ref_count.get(), b.generation.get()));
+            }
+        }
+        let free: Vec<usize> = sp.free_list.iter().map(|p| unsafe { p.as_ref() }.index).collect();
+        let mut guards = Vec::new();
+        for w in &sp.active_guards {
+            if let Some(g) = w.upgrade() {
+                guards.push(g.roots.borrow().iter().map(|p| unsafe { p.as_ref() }.index).collect());
+            }
+        }
+        (slots, free, guards, sp.net_allocs, sp.gc_threshold)
     }
 }
 
